@@ -108,6 +108,10 @@ REWRITES = {
         r"matches!\(\s*(\w+)\s*,\s*Some\(([^()]*)\)\s*\)", None, "matches!(x, Some(p)) == match x { Some(p) => true, _ => false }"),
     "crate_paths": (r"\bcrate::processor::(Titles|Context)\b", r"\1", "crate::processor::X is the X of this file"),
     "underscore_param": (r"\(&mut self, _: ", r"(&mut self, _unused: ", "a parameter pattern `_` is an unnamed (unused) parameter"),
+    "matches_not": (r"!matches!\(\s*self\s*,\s*([\w:]+)\(_\)\s*\)", r"!(match self { \1(_) => true, _ => false })", "!matches!(self, V(_)) == !(match self { V(_) => true, _ => false })"),
+    "try_io": (r"\b(self|reader|r)\.(next|peek|eat_whitespace|read_digits)\(([^()]*)\)\?",
+               r"(match \1.\2(\3) { Ok(v__) => v__, Err(e__) => return Err(From::<std::io::Error>::from(e__)) })",
+               "`e?` on an io::Result is `match e { Ok(v) => v, Err(x) => return Err(From::from(x)) }` (the definition of `?`; Verus does not track the converted error of a `?` between different error types)"),
     "pub_crate": (r"\bpub\(crate\)\s+", r"pub ", "visibility is irrelevant in a single file"),
     "deref_clone": (
         r"(\w+)\.deref\(\)\.clone\(\)", r"vrc::deref_clone(&\1)", "Rc<T>::deref().clone() clones the pointee"),
